@@ -68,6 +68,7 @@ func (b *BufferBatchGetter) BatchGet(ctx context.Context, keys [][]byte, options
 		return b.snapshot.BatchGet(ctx, keys, options...)
 	}
 	shrinkKeys := make([][]byte, 0, len(keys)-len(bufferValues))
+	var deletedKeys [][]byte
 	for _, key := range keys {
 		val, ok := bufferValues[string(key)]
 		if !ok {
@@ -75,8 +76,9 @@ func (b *BufferBatchGetter) BatchGet(ctx context.Context, keys [][]byte, options
 			continue
 		}
 		// the deleted key should be removed from the result, and also no need to snapshot read it again.
+		// Remove it only after the loop: the same key may be requested more than once.
 		if val.IsValueEmpty() {
-			delete(bufferValues, string(key))
+			deletedKeys = append(deletedKeys, key)
 		}
 	}
 	storageValues, err := b.snapshot.BatchGet(ctx, shrinkKeys, options...)
@@ -85,6 +87,9 @@ func (b *BufferBatchGetter) BatchGet(ctx context.Context, keys [][]byte, options
 	}
 	for key, val := range storageValues {
 		bufferValues[key] = val
+	}
+	for _, key := range deletedKeys {
+		delete(bufferValues, string(key))
 	}
 	return bufferValues, nil
 }
@@ -116,6 +121,7 @@ func (b *BufferSnapshotBatchGetter) BatchGet(ctx context.Context, keys [][]byte,
 		return b.snapshot.BatchGet(ctx, keys, options...)
 	}
 	shrinkKeys := make([][]byte, 0, len(keys)-len(bufferValues))
+	var deletedKeys [][]byte
 	for _, key := range keys {
 		val, ok := bufferValues[string(key)]
 		if !ok {
@@ -123,8 +129,9 @@ func (b *BufferSnapshotBatchGetter) BatchGet(ctx context.Context, keys [][]byte,
 			continue
 		}
 		// the deleted key should be removed from the result, and also no need to snapshot read it again.
+		// Remove it only after the loop: the same key may be requested more than once.
 		if val.IsValueEmpty() {
-			delete(bufferValues, string(key))
+			deletedKeys = append(deletedKeys, key)
 		}
 	}
 	storageValues, err := b.snapshot.BatchGet(ctx, shrinkKeys, options...)
@@ -133,6 +140,9 @@ func (b *BufferSnapshotBatchGetter) BatchGet(ctx context.Context, keys [][]byte,
 	}
 	for key, val := range storageValues {
 		bufferValues[key] = val
+	}
+	for _, key := range deletedKeys {
+		delete(bufferValues, string(key))
 	}
 	return bufferValues, nil
 }
